@@ -219,11 +219,10 @@ Proof.
   intros H Hp x Hx. apply in_app_or in Hx. destruct Hx as [Hx|[<-|[]]]; auto.
 Qed.
 
-Lemma INV_pod_add cfg wf st id qn np req keys :
-  INV cfg wf st -> (wf = true -> pod_okb req keys = true) ->
-  INV cfg wf (mkState (touch_request st (mkPod id qn req keys np false false) (quotas st)
-                                     (pods st ++ [mkPod id qn req keys np false false]))
-                      (pods st ++ [mkPod id qn req keys np false false]) (total st)).
+Lemma INV_pod_add cfg wf st p :
+  INV cfg wf st -> (wf = true -> pod_okb (p_req p) (p_keys p) = true) ->
+  INV cfg wf (mkState (touch_request st p (quotas st) (pods st ++ [p]))
+                      (pods st ++ [p]) (total st)).
 Proof.
   intros I Hr. destruct st as [qs0 ps tot]. cbn [quotas pods total] in *.
   apply INV_touch with (ps := ps); [exact I|].
@@ -276,9 +275,9 @@ Proof.
   - intro W. apply nonneg_set_assigned. exact (Hps' W).
 Qed.
 
-Lemma INV_pod_add_bound cfg wf st id qn np req keys :
+Lemma INV_pod_add_bound cfg wf st id qn np req keys term :
   INV cfg wf st -> (wf = true -> pod_okb req keys = true) ->
-  let p := mkPod id qn req keys np false true in
+  let p := mkPod id qn req keys np false true term in
   let ps := pods st ++ [p] in
   INV cfg wf
     (charge (mkState (touch_request st p (taint_ids (map q_id (path st qn)) (quotas st)) ps)
@@ -286,6 +285,47 @@ Lemma INV_pod_add_bound cfg wf st id qn np req keys :
 Proof.
   intros I Hr p ps'. apply (INV_bound_charge cfg wf st p ps' I).
   intro W. apply nonneg_app; [exact (inv_pods _ _ _ I W)|exact (Hr W)].
+Qed.
+
+(* a status update assigns an unassigned pod that carries a node name: tainted path, no request walk *)
+Lemma taint_path_facts qs0 ps tot ps' i :
+  let ids0 := map q_id (path (mkState qs0 ps tot) i) in
+  map q_id (path (mkState (taint_ids ids0 qs0) ps' tot) i) = ids0
+  /\ (forall x, In x (taint_ids ids0 qs0) -> In (q_id x) ids0 -> q_taint x = true).
+Proof.
+  intros ids0. split.
+  - unfold taint_ids. apply (path_ids_map (taint_fn ids0)). apply keeps_taint_fn.
+  - intros x Hx Hid. exact (taint_ids_tainted ids0 qs0 x Hx Hid).
+Qed.
+
+Lemma INV_taint_charge cfg wf st p ps' :
+  INV cfg wf st -> (wf = true -> forall x, In x ps' -> pod_okb (p_req x) (p_keys x) = true) ->
+  INV cfg wf
+    (charge (mkState (taint_ids (map q_id (path st (p_quota p))) (quotas st)) ps' (total st)) p).
+Proof.
+  intros I Hps'. destruct st as [qs0 ps tot]. cbn [quotas pods total] in *.
+  set (ids0 := map q_id (path (mkState qs0 ps tot) (p_quota p))).
+  assert (I1 : INV cfg wf (mkState (taint_ids ids0 qs0) ps' tot)).
+  { apply (INV_pods _ _ _ ps); [apply INV_taint; exact I|exact Hps']. }
+  destruct (taint_path_facts qs0 ps tot ps' (p_quota p)) as [Eids Htn].
+  fold ids0 in Eids, Htn.
+  unfold charge. cbn [quotas pods total]. rewrite Eids.
+  apply INV_upd_used with (ps := ps'); [exact I1| |].
+  - intros W q Hq Hid Hnt. exfalso. rewrite (Htn q Hq Hid) in Hnt. discriminate Hnt.
+  - intro W. apply nonneg_set_assigned. exact (Hps' W).
+Qed.
+
+Lemma in_set_status id b t ps x : In x (set_status id b t ps) ->
+  exists x0, In x0 ps /\ p_req x = p_req x0 /\ p_keys x = p_keys x0 /\ p_quota x = p_quota x0.
+Proof.
+  unfold set_status. intro H. apply in_map_iff in H. destruct H as (y & <- & Hy).
+  exists y. split; [exact Hy|]. destruct (p_id y =? id); repeat split.
+Qed.
+Lemma nonneg_set_status id b t ps :
+  (forall x, In x ps -> pod_okb (p_req x) (p_keys x) = true) ->
+  forall x, In x (set_status id b t ps) -> pod_okb (p_req x) (p_keys x) = true.
+Proof.
+  intros H x Hx. apply in_set_status in Hx. destruct Hx as (x0 & Hx0 & -> & -> & _). auto.
 Qed.
 
 Lemma in_set_np id ps x : In x (set_np id ps) ->
@@ -372,18 +412,21 @@ Proof.
 Qed.
 
 (* ---------- every operation ---------- *)
-Theorem INV_step cfg wf st sn o :
-  INV cfg wf st -> FL wf st sn -> INV cfg (wf && op_okb st sn o) (fst (step cfg st o)).
+(* the restart case needs the exactness invariant (Proofs_Exact.v) and is supplied there *)
+Theorem INV_step_gen cfg wf st sn o :
+  INV cfg wf st -> FL wf st sn ->
+  (o = ORestart -> INV cfg wf (fst (step cfg st ORestart))) ->
+  INV cfg (wf && op_okb st sn o) (fst (step cfg st o)).
 Proof.
-  intros I F.
+  intros I F Hre.
   assert (Iw : INV cfg (wf && op_okb st sn o) st).
   { apply (INV_weaken _ _ _ _ I). intro H. apply andb_true_iff in H. apply H. }
   assert (Hop : wf && op_okb st sn o = true -> op_okb st sn o = true).
   { intro H. apply andb_true_iff in H. apply H. }
   assert (Hwf : wf && op_okb st sn o = true -> wf = true).
   { intro H. apply andb_true_iff in H. apply H. }
-  destruct o as [id parent lend decl mx mindecl mn w|id mx mindecl mn w|id qn np req keys|id|id|id|id|id|t
-                 |id qn np req keys|id|id|]; unfold step, apply_attempt; cbv zeta.
+  destruct o as [id parent lend decl mx mindecl mn w|id mx mindecl mn w|id qn np req keys term|id|id|id|id|id|t
+                 |id qn np req keys term|id|id|id term bind| |]; unfold step, apply_attempt; cbv zeta.
   - (* quota add *)
     destruct (id <=? 0) eqn:E0; cbn [orb fst]; [exact Iw|].
     destruct (find_quota id (quotas st)) eqn:Ef; cbn [orb fst]; [exact Iw|].
@@ -405,7 +448,7 @@ Proof.
   - (* pod add *)
     destruct (find_pod id (pods st)); cbn [fst]; [exact Iw|].
     destruct (find_quota qn (quotas st)); cbn [fst]; [|exact Iw].
-    apply INV_pod_add; [exact Iw|]. intro W. exact (Hop W).
+    apply (INV_pod_add cfg _ st (mkPod id qn req keys np false false term)); [exact Iw|]. intro W. exact (Hop W).
   - (* attempt *)
     destruct (find_pod id (pods st)) as [p|] eqn:Ef; cbn [fst]; [|exact Iw].
     destruct (path st (p_quota p)) as [|q anc] eqn:Ep.
@@ -449,7 +492,9 @@ Proof.
   - (* bound pod *)
     destruct (find_pod id (pods st)); cbn [fst]; [exact Iw|].
     destruct (find_quota qn (quotas st)); cbn [fst]; [|exact Iw].
-    apply INV_pod_add_bound; [exact Iw|]. intro W. exact (Hop W).
+    destruct term; cbn [fst].
+    + apply (INV_pod_add cfg _ st (mkPod id qn req keys np false true true)); [exact Iw|]. intro W. exact (Hop W).
+    + apply INV_pod_add_bound; [exact Iw|]. intro W. exact (Hop W).
   - (* allow-lent flip *)
     destruct (find_quota id (quotas st)); cbn [fst]; [|exact Iw].
     destruct st as [qs0 ps tot]. cbn [quotas pods total] in *.
@@ -464,15 +509,51 @@ Proof.
       apply INV_touch with (ps := ps); [|exact Hps].
       apply INV_upd_used with (ps := ps); [exact Iw| |exact (inv_pods _ _ _ Iw)].
       intros W q Hq _ Ht. exact (inv_used _ _ _ Iw W q Hq Ht).
-    + destruct (p_bound p); cbn [fst].
+    + destruct (p_bound p && negb (p_term p)); cbn [fst].
       * change (p_quota p) with (p_quota (flip_np p)).
         apply (INV_bound_charge cfg _ st (flip_np p) (set_np id (pods st)) Iw Hps).
       * destruct st as [qs0 ps tot]. cbn [quotas pods total] in *.
         apply INV_touch with (ps := ps); [exact Iw|exact Hps].
+  - (* pod status *)
+    destruct (find_pod id (pods st)) as [p|] eqn:Ef; cbn [fst]; [|exact Iw].
+    assert (Hps : wf && true = true -> forall x, In x (set_status id (p_bound p || bind) term (pods st)) ->
+                                                 pod_okb (p_req x) (p_keys x) = true).
+    { intro W. apply nonneg_set_status. exact (inv_pods _ _ _ Iw W). }
+    match goal with |- context [if ?b then _ else _] => destruct b end; cbn [fst].
+    + change (p_quota p) with (p_quota (with_status p (p_bound p || bind) term)).
+      apply (INV_taint_charge cfg _ st (with_status p (p_bound p || bind) term) _ Iw Hps).
+    + destruct st as [qs0 ps tot]. cbn [quotas pods total] in *.
+      apply (INV_pods _ _ _ ps); [exact Iw|exact Hps].
+  - (* restart *)
+    cbn [op_okb]. rewrite andb_true_r. exact (Hre eq_refl).
   - exact Iw.
 Qed.
 
 (* ---------- the check in flight survives every operation ---------- *)
+(* ---------- restart: the pod table ---------- *)
+Lemma in_restart_pods ps x :
+  In x (map restart_pod ps) ->
+  exists x0, In x0 ps /\ p_req x = p_req x0 /\ p_keys x = p_keys x0 /\ p_quota x = p_quota x0.
+Proof.
+  intro H. apply in_map_iff in H. destruct H as (y & <- & Hy). exists y. repeat split. exact Hy.
+Qed.
+Lemma nonneg_restart_pods ps :
+  (forall x, In x ps -> pod_okb (p_req x) (p_keys x) = true) ->
+  forall x, In x (map restart_pod ps) -> pod_okb (p_req x) (p_keys x) = true.
+Proof.
+  intros H x Hx. apply in_restart_pods in Hx. destruct Hx as (x0 & Hx0 & -> & -> & _). auto.
+Qed.
+Definition usage_fn (st1 : state) : quota -> quota :=
+  fun q => set_usage q (vmk (exp_used st1 q)) (vmk (exp_npused st1 q)).
+Lemma keeps_usage_fn st1 : keeps (usage_fn st1).
+Proof. apply (keeps_set_usage (fun q => vmk (exp_used st1 q)) (fun q => vmk (exp_npused st1 q))). Qed.
+Lemma exp_used_nonneg st1 q d :
+  (forall x, In x (pods st1) -> pod_okb (p_req x) (p_keys x) = true) -> 0 <= exp_used st1 q d.
+Proof.
+  intro H. unfold exp_used. apply sumZ_map_nonneg. intros p Hp. unfold pod_share.
+  destruct (_ && _); [apply pod_delta_nonneg; exact (H p Hp)|rewrite vget_vzero; lia].
+Qed.
+
 Lemma FL_weaken wf wf' st sn : FL wf st sn -> (wf' = true -> wf = true) -> FL wf' st sn.
 Proof. intros F H W. exact (F (H W)). Qed.
 
@@ -493,8 +574,8 @@ Proof.
   assert (Hop : wf && op_okb st sn o = true -> op_okb st sn o = true).
   { intro H. apply andb_true_iff in H. apply H. }
   assert (Fw : FL (wf && op_okb st sn o) st sn) by (apply (FL_weaken wf); assumption).
-  destruct o as [id parent lend decl mx mindecl mn w|id mx mindecl mn w|id qn np req keys|id|id|id|id|id|t
-                 |id qn np req keys|id|id|]; unfold step, apply_attempt; cbv zeta; cbn [track].
+  destruct o as [id parent lend decl mx mindecl mn w|id mx mindecl mn w|id qn np req keys term|id|id|id|id|id|t
+                 |id qn np req keys term|id|id|id term bind| |]; unfold step, apply_attempt; cbv zeta; cbn [track].
   - (* quota add *)
     destruct (id <=? 0) eqn:E0; cbn [orb fst]; [exact Fw|].
     destruct (find_quota id (quotas st)) eqn:Ef; cbn [orb fst]; [exact Fw|].
@@ -582,9 +663,12 @@ Proof.
   - (* bound pod *)
     destruct (find_pod id (pods st)); cbn [fst]; [exact Fw|].
     destruct (find_quota qn (quotas st)); cbn [fst]; [|exact Fw].
+    destruct term; cbn [fst].
+    { intro W. destruct (Fw W) as [Hn Hf]. cbn [quotas].
+      split; [apply nonneg_touch|apply flight_touch]; assumption. }
     intro W. destruct (Fw W) as [Hn Hf].
     destruct st as [qs0 ps tot]. cbn [quotas pods total] in *.
-    set (p := mkPod id qn req keys np false true). set (ps' := ps ++ [p]).
+    set (p := mkPod id qn req keys np false true false). set (ps' := ps ++ [p]).
     destruct (pod_add_bound_facts qs0 ps tot p ps') as [Eids Htn].
     change (p_quota p) with qn in Eids, Htn.
     unfold charge. cbn [quotas pods total]. change (p_quota p) with qn. rewrite Eids.
@@ -615,7 +699,7 @@ Proof.
         destruct (mem_id _ _); exact Hx.
       * apply flight_touch. unfold upd_used. apply flight_map; [|exact Hf]. intros x _.
         destruct (mem_id _ _); [|apply RL_refl]. repeat split; auto; intros; cbn; lia.
-    + destruct (p_bound p); cbn [fst].
+    + destruct (p_bound p && negb (p_term p)); cbn [fst].
       * destruct st as [qs0 ps tot]. cbn [quotas pods total] in *.
         destruct (pod_add_bound_facts qs0 ps tot (flip_np p) (set_np id ps)) as [Eids Htn].
         change (p_quota (flip_np p)) with (p_quota p) in Eids, Htn.
@@ -628,13 +712,28 @@ Proof.
         -- apply flight_charge_tainted; [exact Htn|].
            apply flight_touch. apply flight_taint. exact Hf.
       * cbn [quotas]. split; [apply nonneg_touch|apply flight_touch]; assumption.
+  - (* pod status *)
+    destruct (find_pod id (pods st)) as [p|] eqn:Ef; cbn [fst]; [|exact Fw].
+    intro W. destruct (Fw W) as [Hn Hf].
+    match goal with |- context [if ?b then _ else _] => destruct b end; cbn [fst].
+    + destruct st as [qs0 ps tot]. cbn [quotas pods total] in *.
+      set (p' := with_status p (p_bound p || bind) term).
+      destruct (taint_path_facts qs0 ps tot (set_status id (p_bound p || bind) term ps) (p_quota p)) as [Eids Htn].
+      unfold charge. cbn [quotas pods total]. change (p_quota p') with (p_quota p). rewrite Eids.
+      split.
+      * apply nonneg_charge.
+        -- apply pod_delta_nonneg. apply find_pod_some in Ef.
+           exact (inv_pods _ _ _ I (Hwf W) p (proj1 Ef)).
+        -- apply nonneg_taint. exact Hn.
+      * apply flight_charge_tainted; [exact Htn|]. apply flight_taint. exact Hf.
+    + cbn [quotas]. split; assumption.
+  - (* restart *)
+    cbn [fst]. apply FL_none. intro W. cbn [quotas].
+    apply nonneg_refresh. apply nonneg_map with (qs := taint_ids (fresh_ids st) (quotas st)).
+    + intros x _ _ d. cbn [q_used set_usage]. rewrite vget_vmk. apply exp_used_nonneg.
+      cbn [pods]. apply nonneg_restart_pods. exact (inv_pods _ _ _ I (Hwf W)).
+    + apply nonneg_taint. exact (proj1 (Fw W)).
   - exact Fw.
 Qed.
 
-Theorem INV_FL_step : forall cfg wf st sn o,
-  INV cfg wf st -> FL wf st sn ->
-  INV cfg (wf && op_okb st sn o) (fst (step cfg st o))
-  /\ FL (wf && op_okb st sn o) (fst (step cfg st o)) (track cfg st sn o).
-Proof.
-  intros cfg wf st sn o I F. split; [exact (INV_step cfg wf st sn o I F)|exact (FL_step cfg wf st sn o I F)].
-Qed.
+
